@@ -107,8 +107,12 @@ pub struct CheckReport {
     pub assumptions: Vec<String>,
 }
 
+/// the sets of distinct hashes stop growing here (the evidence then says so)
+pub const DISTINCT_CAP: usize = 6_000_000;
+
 #[derive(Default)]
 pub struct Agg {
+    pub distinct_capped: bool,
     pub runs: u64,
     pub evaluations: u64,
     pub stats: RunStats,
@@ -169,33 +173,50 @@ pub fn run_batches(batches: Vec<Batch>, agg: &mut Agg) {
                 }
             }
         };
-        let outs = par_map(b.runs, &guarded_f);
         let mut nviol = 0;
-        for (i, o) in outs.into_iter().enumerate() {
-            agg.runs += 1;
-            agg.evaluations += o.evaluations;
-            add_stats(&mut agg.stats, &o.stats);
-            for h in &o.stats.state_hashes {
-                agg.states.insert(*h);
-            }
-            if o.stats.steps > 0 {
-                agg.interleavings.insert(o.stats.interleave_hash);
-            }
-            for (k, v) in o.counters {
-                *agg.counters.entry(k).or_insert(0) += v;
-            }
-            agg.distinct.extend(o.distinct);
-            if let Some(s) = o.sample {
-                if agg.samples.len() < 6 && (i < 2 || agg.samples.len() < 3) {
-                    agg.samples.push(s);
+        // chunks keep memory bounded in the thorough tiers; results are still merged in run-index order
+        const CHUNK: u64 = 20_000;
+        let mut base = 0u64;
+        while base < b.runs {
+            let n = CHUNK.min(b.runs - base);
+            let shifted = |i: u64| guarded_f(base + i);
+            let outs = par_map(n, &shifted);
+            for (i, o) in outs.into_iter().enumerate() {
+                let i = i + base as usize;
+                agg.runs += 1;
+                agg.evaluations += o.evaluations;
+                add_stats(&mut agg.stats, &o.stats);
+                if agg.states.len() < DISTINCT_CAP {
+                    for h in &o.stats.state_hashes {
+                        agg.states.insert(*h);
+                    }
+                } else {
+                    agg.distinct_capped = true;
+                }
+                if o.stats.steps > 0 && agg.interleavings.len() < DISTINCT_CAP {
+                    agg.interleavings.insert(o.stats.interleave_hash);
+                }
+                for (k, v) in o.counters {
+                    *agg.counters.entry(k).or_insert(0) += v;
+                }
+                if agg.distinct.len() < DISTINCT_CAP {
+                    agg.distinct.extend(o.distinct);
+                } else {
+                    agg.distinct_capped = true;
+                }
+                if let Some(s) = o.sample {
+                    if agg.samples.len() < 6 && (i < 2 || agg.samples.len() < 3) {
+                        agg.samples.push(s);
+                    }
+                }
+                if let Some(v) = o.violation {
+                    nviol += 1;
+                    if agg.violations.len() < 50 {
+                        agg.violations.push(v);
+                    }
                 }
             }
-            if let Some(v) = o.violation {
-                nviol += 1;
-                if agg.violations.len() < 50 {
-                    agg.violations.push(v);
-                }
-            }
+            base += n;
         }
         agg.per_batch.push(json!({"batch": b.name, "runs": b.runs, "wall_s": t0.elapsed().as_secs_f64(), "violations": nviol}));
     }
@@ -325,6 +346,7 @@ pub fn finish(rep: CheckReport, agg: Agg, t0: Instant, extra: Value) -> i32 {
         "rule": rep.rule,
         "samples": agg.samples,
         "exhaustive": rep.exhaustive,
+        "distinct_counting_capped": agg.distinct_capped,
         "simulated_runs": agg.runs,
         "runs_per_hour": (agg.runs as f64 / wall.max(1e-9) * 3600.0) as u64,
         "seeds_per_hour": (agg.runs as f64 / wall.max(1e-9) * 3600.0) as u64,
